@@ -10,7 +10,7 @@ from ..selftest import B, M
 from .common import F_BASE, F_BC, F_QUAN, F_TYPE, cfg_of, concrete_classes, construct, discretizer_classes, loc, path_str, short
 
 EXPLANATION = (
-    "Decides, at each of the n_jobs dispatch sites: R-seq-par-agree (the sequential branch and the Pool "
+    "Decides: R-adjacency-order (the grouped tables of the carvers keep the feature's order -- never a lexicographic order nor the hash order of a set, which changes with PYTHONHASHSEED); and, at each of the n_jobs dispatch sites: R-seq-par-agree (the sequential branch and the Pool "
     "branch call the same module-level function with, after binding positional tuples / partial "
     "keywords through the function's signature, the same argument expressions, over the same feature "
     "list); R-pool-keyed (results are consumed only by destructuring the feature key out of each "
@@ -26,7 +26,7 @@ EXPLANATION = (
     "values are sent to the default group through a per-column map {feature: {value: str_default}}, never one pooled map)."
 )
 NOT_DECIDED = "multiprocessing's own behaviour; effect of the hash seed beyond iteration order"
-FLOORS = {"R-order-statistic": 4, "R-seq-par-agree": 3, "R-pool-keyed": 6, "R-worker-pure": 3, "R-no-iter-mutation": 3, "R-key-local": 8, "R-per-feature-objects": 12, "R-default-formula": 2}
+FLOORS = {"R-order-statistic": 4, "R-seq-par-agree": 3, "R-pool-keyed": 6, "R-worker-pure": 3, "R-no-iter-mutation": 3, "R-key-local": 8, "R-per-feature-objects": 12, "R-default-formula": 2, "R-adjacency-order": 3}
 
 LV = "<feature>"
 
@@ -559,6 +559,10 @@ def rule_per_feature_objects(ctx):
 
 
 def check(ctx):
+    from . import carver
+
+    # the grouped tables keep the feature's order, never a set's hash order: a feature's result must not depend on the interpreter's hash seed
+    carver.check_adjacency_order(ctx, "R-adjacency-order")
     rule_per_feature_objects(ctx)
     from . import c05
 
